@@ -27,9 +27,8 @@ def withTable (tbl : String) (f : Idna → String) : String :=
     if a = b then a else "idna-miss"
 
 def showFwd : Fwd → String
-  | .closed => "closed"
   | .crashed => "crashed"
-  | .sent outs => "sent " ++ (if outs.isEmpty then "-" else ",".intercalate (outs.map showBytes))
+  | .done outs closed => (if closed then "closed " else "sent ") ++ (if outs.isEmpty then "-" else ",".intercalate (outs.map showBytes))
 
 def showList {α} (f : α → String) (l : List α) : String := if l.isEmpty then "-" else ";".intercalate (l.map f)
 def showRQ (q : DnsRef.RQ) : String := s!"{showBytes (wire q.labels ++ [0])}:{q.type}:{q.cls}"
